@@ -69,9 +69,6 @@ func genCLCase(t *rapid.T) CLCase {
 			c.Cuts = append(c.Cuts, rapid.OneOf(rapid.IntRange(1, 5), rapid.IntRange(1, 1500), rapid.IntRange(1000, 30000)).Draw(t, "cut"))
 		}
 		c.GapMs = rapid.SampledFrom([]int{0, 0, 1, 7}).Draw(t, "gap")
-		if len(c.Cuts) > 0 && c.GapMs > 0 && (c.Declared+c.Actual)/minInt(c.Cuts) > 400 {
-			c.GapMs = 0 // keep the virtual duration (and the number of tiny datagrams) bounded
-		}
 	}
 	c.Flush = rapid.Bool().Draw(t, "flush")
 	if c.Dir == "rsp" && rapid.IntRange(0, 7).Draw(t, "nobody") == 0 {
@@ -85,16 +82,6 @@ func genCLCase(t *rapid.T) CLCase {
 	c.SrvLogger = rapid.Bool().Draw(t, "srvlogger")
 	c.CliLogger = rapid.Bool().Draw(t, "clilogger")
 	return c
-}
-
-func minInt(xs []int) int {
-	m := xs[0]
-	for _, x := range xs {
-		if x < m {
-			m = x
-		}
-	}
-	return max(m, 1)
 }
 
 // genReader yields exactly n pattern bytes in reads of the given sizes, then io.EOF.
@@ -283,7 +270,7 @@ func runCL(c CLCase, u *vf.Unit) *vf.Verdict {
 			if c.Trailers {
 				b = appendFrame(b, ftHeaders, encodeFields([][2]string{{"x-cl-t", "tv"}}))
 			}
-			err := writeCut(str, b, c.Cuts, time.Duration(c.GapMs)*time.Millisecond)
+			err := writeCut(str, b, c.Cuts, boundGap(len(b), c.Cuts, c.GapMs))
 			if err == nil {
 				str.Close()
 				time.Sleep(4*rtt + 50*time.Millisecond)
@@ -372,7 +359,7 @@ func runCL(c CLCase, u *vf.Unit) *vf.Verdict {
 		wdone := make(chan struct{})
 		go func() {
 			defer close(wdone)
-			if writeCut(str, b, c.Cuts, time.Duration(c.GapMs)*time.Millisecond) == nil {
+			if writeCut(str, b, c.Cuts, boundGap(len(b), c.Cuts, c.GapMs)) == nil {
 				str.Close()
 			}
 		}()
